@@ -143,6 +143,13 @@ theorem apply_cust {s s' : St} {o : Op} (h : Cust s) (e : apply s o = .ok s') : 
   | update m => exact updateState_cust h e
   | fraud au ra hh rev p rw => exact fraud_cust h e
   | obsolete au vs => exact markObsolete_cust h e
+  | punish au a rw => exact punish_cust h (punishProposal_ok e).2
+  | transferOwner sg ra' no =>
+    obtain ⟨r, hg, _, _, _, rfl⟩ := transferOwner_ok e
+    exact h.of_eq rfl rfl
+  | setSeqParams au sp =>
+    obtain ⟨_, hnp, _, rfl⟩ := setSeqParams_ok e
+    exact h.of_eq rfl rfl
   | begin_ dt => simp only [apply] at e; injection e with e; subst e; exact beginBlock_cust h
   | end_ f => simp only [apply] at e; injection e with e; subst e; exact endBlock_cust h
 
